@@ -515,4 +515,144 @@ def runB (n : Nat) (ok : OutKeys) (srcFlow : List Item) : List St → List Item 
     | _, _ => none
 end
 
+
+/-! ## specification vocabulary (executable; the driver evaluates it next to the transcribed protocol)
+
+Positions in a program, the context that the one top-down fold delivers to a position (`ctxAt`), what
+encloses and precedes a position (`cone`), the state that `_set_context(x)` leaves a fresh leaf element in
+(`leafFinal`), and the run-time reference flows (`runRef`, `runPlain`). -/
+
+/-- the last context of a history, `{}` for none -/
+def lastD (n : Nat) (F : List Ctx) : Ctx := F.getLastD (Val.empty n)
+
+/-- the state of a leaf element after `_set_context(x)` on a fresh object (for `MakeFilename`, `Write`, `Cache`,
+whose constructors do not set a context: no call at all for an empty `x`) -/
+def leafFinal (n : Nat) : Elem → Ctx → St
+  | .set k ks v, x => .set k ks v (SC.ofExcept (fmtUpdate n k ks v x))
+  | .store, x => .store x
+  | .ucfs, x => .ucfs x
+  | .mkf t, x => .mkf t (if nonEmpty x = true then some x else none)
+  | .write t, x => .write t (if nonEmpty x = true then nameUpdate t none x else none)
+  | .cache t, x => .cache t (if nonEmpty x = true then nameUpdate t none x else none)
+  | .data, _ => .data
+  | .src, _ => .src
+
+/-! ## positions -/
+
+def Tree.children : Tree → List Tree
+  | .leaf _ => []
+  | .seq _ cs => cs
+  | .split bs => bs
+
+def St.children : St → List St
+  | .seq _ cs _ => cs
+  | .split bs => bs
+  | _ => []
+
+/-- the sub-program at a path of child indices -/
+def Tree.at? : Tree → List Nat → Option Tree
+  | t, [] => some t
+  | t, i :: p => (t.children[i]?).bind fun c => c.at? p
+
+/-- the object at a path of child indices -/
+def St.at? : St → List Nat → Option St
+  | s, [] => some s
+  | s, i :: p => (s.children[i]?).bind fun c => c.at? p
+
+/-- **the context that the one top-down fold delivers to the node at path `p`** when the context before `t`
+is `c`: through a sequence, the fold of the earlier children (`SetContext` updates with their formatting
+strings resolved against that same prefix, intersections exported by earlier `Split`s); through a `Split`,
+the context of the `Split` itself (every branch gets a copy).  `none`: no such node, or a formatting key of
+the prefix cannot be resolved (then the statement defines nothing). -/
+def ctxAt (n : Nat) : Tree → List Nat → Ctx → Option Ctx
+  | _, [], c => some c
+  | .leaf _, _ :: _, _ => none
+  | .seq _ cs, i :: p, c =>
+    (cs[i]?).bind fun t =>
+      match foldL n (cs.take i) c with
+      | .ok c' => ctxAt n t p c'
+      | .error _ => none
+  | .split bs, i :: p, c => (bs[i]?).bind fun b => ctxAt n b p c
+
+/-- what encloses and precedes a node: for every enclosing sequence its earlier children (in full), for
+every enclosing `Split` nothing but the fact -/
+inductive ConeStep where
+  | seq (earlier : List Tree)
+  | split
+
+def cone : Tree → List Nat → Option (List ConeStep)
+  | _, [] => some []
+  | .leaf _, _ :: _ => none
+  | .seq _ cs, i :: p => (cs[i]?).bind fun c => (cone c p).map (ConeStep.seq (cs.take i) :: ·)
+  | .split bs, i :: p => (bs[i]?).bind fun b => (cone b p).map (ConeStep.split :: ·)
+
+/-- what `MakeFilename` holds: nothing for an empty context (which is never delivered) -/
+def seenOpt (x : Ctx) : Option Ctx := if nonEmpty x = true then some x else none
+
+mutual
+/-- run-time reference: the flow through the program when the static context before `t` is `c`.  Only
+`UpdateContextFromStatic` (recursive update of the run-time context with the prefix fold) and `MakeFilename`
+(the name it derives) look at `c`. -/
+def runRef (n : Nat) (ok : OutKeys) (src : List Item) : Tree → Ctx → List Item → Option (List Item)
+  | .leaf .ucfs, c, f => some (f.map fun it => (it.1, updL it.2 c))
+  | .leaf (.mkf t), c, f => f.mapM fun it => (mkfCall n ok t (seenOpt c) it.2).map fun x => (it.1, x)
+  | .leaf .src, _, _ => some src
+  | .leaf (.set ..), _, f => some f
+  | .leaf .store, _, f => some f
+  | .leaf (.write _), _, f => some f
+  | .leaf (.cache _), _, f => some f
+  | .leaf .data, _, f => some f
+  | .seq _ cs, c, f => runRefL n ok src cs c f
+  | .split bs, c, f => if bs.isEmpty then some f else runRefB n ok src bs c f
+def runRefL (n : Nat) (ok : OutKeys) (src : List Item) : List Tree → Ctx → List Item → Option (List Item)
+  | [], _, f => some f
+  | t :: ts, c, f =>
+    match runRef n ok src t c f with
+    | none => none
+    | some f' =>
+      match fold n t c with
+      | .ok c' => runRefL n ok src ts c' f'
+      | .error _ => runRefL n ok src ts c f'        -- (not reached when the fold of the sequence succeeds)
+def runRefB (n : Nat) (ok : OutKeys) (src : List Item) : List Tree → Ctx → List Item → Option (List Item)
+  | [], _, _ => some []
+  | b :: bs, c, f =>
+    match runRef n ok src b c f, runRefB n ok src bs c f with
+    | some x, some y => some (x ++ y)
+    | _, _ => none
+end
+
+mutual
+/-- the flow through a program that ignores static context altogether -/
+def runPlain (src : List Item) : Tree → List Item → List Item
+  | .leaf .src, _ => src
+  | .leaf (.set ..), f => f
+  | .leaf .store, f => f
+  | .leaf .ucfs, f => f
+  | .leaf (.mkf _), f => f
+  | .leaf (.write _), f => f
+  | .leaf (.cache _), f => f
+  | .leaf .data, f => f
+  | .seq _ cs, f => runPlainL src cs f
+  | .split bs, f => if bs.isEmpty then f else runPlainB src bs f
+def runPlainL (src : List Item) : List Tree → List Item → List Item
+  | [], f => f
+  | t :: ts, f => runPlainL src ts (runPlain src t f)
+def runPlainB (src : List Item) : List Tree → List Item → List Item
+  | [], _ => []
+  | b :: bs, f => runPlain src b f ++ runPlainB src bs f
+end
+
+mutual
+/-- no `UpdateContextFromStatic` and no `MakeFilename` anywhere in the program -/
+def Tree.noConsumer : Tree → Bool
+  | .leaf .ucfs => false
+  | .leaf (.mkf _) => false
+  | .leaf _ => true
+  | .seq _ cs => noConsumerL cs
+  | .split bs => noConsumerL bs
+def noConsumerL : List Tree → Bool
+  | [] => true
+  | t :: ts => t.noConsumer && noConsumerL ts
+end
+
 end Lena.C13
